@@ -12,6 +12,10 @@ CHECKS = {
    text='Shape-bounded, valuation-unbounded: for ~70k (quick) / ~300k (thorough) enumerated well-typed trees (every rewrite rule x boundary constants, all depth-1 trees, two-level operator trees, seeded random depth<=4) the real simplifier result is proved equal to the input for all valuations of identifiers and memory, same width, well-typed, argument nodes unmodified (frame), also with shared sub-term objects. Termination is a bounded observation (5 s per tree). _expr_simp/merge_sliceto_slice are not proved inductively.',
    note='Trusted: z3; the IR denotation liftvc/den.py (S-ir) cross-checked by the independent interpreter specs/irsem.py; flat memory. Bounded in tree shape and constants.',
    ref='5 C05'),
+ 'C06': dict(cat='other', tech='contract on eval_abs.eval_expr checked per (tree, state): real evaluator on fresh objects, den(result) = den(e) o S proved for ALL valuations of the free symbols by z3 (shape/state-bounded SMT)',
+   text='For ~47k (quick) / ~600k (thorough) enumerated (expression, machine state) pairs - lifter operators incl. n-ary forms, depth-1 trees, rule templates, random trees; states binding each leaf to nothing / constants / a symbol / a compound - the evaluation result is proved equal to the substituted expression for all valuations, same width, and constant when every input is constant. eval_ExprOp/eval_ExprMem are not proved inductively.',
+   note='Trusted: z3; IR denotation liftvc/den.py; independent interpreter specs/irsem.py for replays. Memory cells are bound at a free address symbol (overlap is C07). Known finding: named mul/div operators missing from the evaluator.',
+   ref='5 C06'),
 }
 NOT_YET = {}
 ALL = ['C%02d' % i for i in range(1, 20)]
@@ -39,7 +43,7 @@ def main():
         'hooks': {'guard': 'LRGH_MIASMX_VERIF', 'enable': 'unused: contracts are sidecar files under /verif/contracts, /repo is not instrumented',
                   'baseline_off_cmd': BASE_OFF, 'source_commits': [], 'add_only': True},
         'engines': [
-            {'name': 'liftvc', 'path': 'liftvc/', 'serves_properties': ['C05'], 'kind_free_text': 'Engine B: IR denotation den() as z3 bit-vectors; equivalence / refinement queries over all machine states'},
+            {'name': 'liftvc', 'path': 'liftvc/', 'serves_properties': ['C05', 'C06'], 'kind_free_text': 'Engine B: IR denotation den() as z3 bit-vectors; equivalence / refinement queries over all machine states'},
             {'name': 'pyvc', 'path': 'pyvc/', 'serves_properties': ['C14', 'C05'], 'kind_free_text': 'Engine A: AST -> verification conditions (symbolic execution with callee contracts), z3'},
         ],
         'checks': checks,
